@@ -2,6 +2,7 @@ SPECIFICATION PSpec
 CONSTANTS
   N = 4
   Power <- MCPower
+  NextPower <- MCNextPower
   Byz = {1, 2, 3}
   T = 4
   MaxRound = 3
